@@ -9,6 +9,7 @@ re-enables the shapes of recorded findings, with `?`, failing `expect` with and 
 messages, `trace`, `todo` / `fail` with labels) and every unit test harvested from the
 repository's own test sources (as a test: pass/fail verdict under the V3 convention)."""
 import json
+import os
 import sys
 
 import aiken_checks as A
@@ -166,6 +167,42 @@ def main():
                 chk.count("template_cases_identical_under_9_tracings")
             else:
                 chk.violation(f"C14|outcome-depends-on-tracing|{classify_split(by_t)}|{known_label or 'template:' + name}", {"template": name, "source": src, "args": args, "outcomes": by_t})
+    # Data casts under every trace setting: `expect x: T = d` for generated non-primitive types
+    # (ADTs, records, generics, lists, tuples, Option; casts to these are eager under every
+    # setting) on conforming values and near-miss mutants. The verbose and the silent lowering of
+    # a cast are different code (trace-carrying soft casts vs plain checks): they must accept
+    # exactly the same Data.
+    import subprocess
+
+    tv = json.loads(subprocess.run([sys.executable, os.path.join(os.path.dirname(os.path.abspath(__file__)), "schema_values.py"), str(chk.seed), str(60 if quick else 1200)], capture_output=True, text=True).stdout or "[]")
+    cjobs = []
+    cmeta = {}
+    for ci, t in enumerate(tv):
+        if t["primitive"] or not t["conforming"]:
+            continue
+        src = t["defs"] + f"\n\npub fn accept(d: Data) -> Data {{\n  expect x: {t['type']} = d\n  let r: Data = x\n  r\n}}\n"
+        vals = t["conforming"] + t["nonconforming"]
+        cjobs.append({"id": len(cjobs), "op": "compile_eval", "plutus": "v3", "modules": [{"name": "m", "kind": "lib", "src": src}], "tracings": A.ALL_TRACINGS, "infer_tracing": "same", "detailed": False, "entries": [{"kind": "fn", "module": "m", "name": "accept", "args": [[v] for v in vals]}]})
+        cmeta[len(cjobs) - 1] = (src, t["type"], vals, len(t["conforming"]))
+    cres = A.run(cjobs, timeout=300)
+    for cj in cjobs:
+        src, tstr, vals, nconf = cmeta[cj["id"]]
+        r = cres.get(cj["id"], {})
+        if "runs" not in r or any("rejected" in run for run in r["runs"]):
+            chk.inconc("cast-module-not-compiled")
+            continue
+        runs = {run["tracing"]: run for run in r["runs"]}
+        chk.count("cast_types_under_9_tracings")
+        for pos, v in enumerate(vals):
+            by_t = {}
+            for tname, run in runs.items():
+                er = run["entries"][0]
+                by_t[tname] = okey(er["results"][pos]) if "results" in er else "compile-panic"
+            if len(set(by_t.values())) == 1:
+                chk.held(h(["cast", src, pos]))
+                chk.count("cast_cases_identical_under_9_tracings")
+            else:
+                chk.violation(f"C14|outcome-depends-on-tracing|{classify_split(by_t)}|cast-to-non-primitive-type", {"source": src, "type": tstr, "value": v, "value_conforms": pos < nconf, "outcomes": by_t})
     # harvested unit tests: pass/fail verdict under the nine settings
     jobs, meta = A.jobs_for_harvested(A.ALL_TRACINGS, detailed=True, limit=None if not quick else 200)
     res = A.run(jobs, timeout=600)
